@@ -20,8 +20,10 @@ import (
 	"github.com/cosmos/cosmos-sdk/types/query"
 	"github.com/cosmos/cosmos-sdk/types/tx/signing"
 	authtypes "github.com/cosmos/cosmos-sdk/x/auth/types"
+	vestingtypes "github.com/cosmos/cosmos-sdk/x/auth/vesting/types"
 	"github.com/cosmos/cosmos-sdk/x/authz"
 	banktypes "github.com/cosmos/cosmos-sdk/x/bank/types"
+	burntypes "github.com/medibloc/panacea-core/v2/x/burn/types"
 	"github.com/medibloc/panacea-core/v2/app"
 	errorsmod "cosmossdk.io/errors"
 	dbm "github.com/cometbft/cometbft-db"
@@ -75,6 +77,8 @@ type Exec struct {
 	mode     signing.SignMode
 	Docs     map[string]*didtypes.DIDDocument
 	seenK58  map[string]bool
+	LastDelta string
+	BurnSpendableBefore sdk.Coins
 	genLine  []string            // the pending "# GENESIS" parameters; the chain is built lazily
 	genAol   *aoltypes.GenesisState
 	Custom   map[string]json.RawMessage
@@ -225,6 +229,13 @@ func (x *Exec) parseMsg(f []string) (ParsedMsg, error) {
 		x.declAddrString(str(0))
 		x.declAddrString(str(1))
 		pm.Msg = &banktypes.MsgSend{FromAddress: str(0), ToAddress: str(1), Amount: parseCoins(a[2])}
+	case "vesting.Create":
+		pm.Args = []string{str(0), str(1), a[2], a[3]}
+		x.declAddrString(str(0))
+		x.declAddrString(str(1))
+		et, err := strconv.ParseInt(a[3], 10, 64)
+		must(err)
+		pm.Msg = &vestingtypes.MsgCreateVestingAccount{FromAddress: str(0), ToAddress: str(1), Amount: parseCoins(a[2]), EndTime: et, Delayed: true}
 	case "authz.Grant":
 		pm.Args = []string{str(0), str(1), str(2), a[3]}
 		x.declAddrString(str(0))
@@ -339,6 +350,7 @@ func (x *Exec) Run(lines []string) {
 				m.BeforeTx(x, x.cur)
 			}
 			var result string
+			balBefore := x.watchBalances()
 			bz, err := x.C.BuildTx(x.cur.Top, x.cur.Signers, x.cur.Fee, x.mode)
 			if err != nil {
 				result = "R builderr " + strings.ReplaceAll(err.Error(), "\n", " ")
@@ -347,6 +359,13 @@ func (x *Exec) Run(lines []string) {
 				result = x.C.canonResult(res)
 			}
 			x.Out.Cmd(l, result)
+			balAfter := x.watchBalances()
+			tl := "T"
+			for i := range balAfter {
+				tl += " " + balAfter[i].Sub(balBefore[i]).String()
+			}
+			x.Out.Cmd("", tl)
+			x.LastDelta = tl
 			x.Stats["tx"]++
 			x.Stats["result:"+strings.Join(strings.Split(result, " ")[:min(2, len(strings.Split(result, " ")))], " ")]++
 			if strings.HasPrefix(result, "R msg") || strings.HasPrefix(result, "R vb") {
@@ -360,8 +379,21 @@ func (x *Exec) Run(lines []string) {
 			}
 			x.cur = nil
 		case "ENDBLOCK":
-			x.C.EndBlockCommit()
-			x.Out.Decl("%s", l)
+			burnAddr, _ := sdk.AccAddressFromBech32(burntypes.BurnAddress)
+			sp := x.C.App.BankKeeper.SpendableCoins(x.C.Ctx(), burnAddr)
+			var supBefore []sdk.Int
+			for _, d := range watchDenoms {
+				supBefore = append(supBefore, x.C.App.BankKeeper.GetSupply(x.C.Ctx(), d).Amount)
+			}
+			x.C.App.EndBlock(abci.RequestEndBlock{Height: x.C.Height})
+			bl := "B " + coinsTok(sp)
+			for i, d := range watchDenoms {
+				bl += " " + x.C.App.BankKeeper.GetSupply(x.C.Ctx(), d).Amount.Sub(supBefore[i]).String()
+			}
+			x.BurnSpendableBefore = sp
+			x.C.App.Commit()
+			x.C.InBlock = false
+			x.Out.Cmd(l, bl)
 			for _, m := range x.Mons {
 				m.AfterBlock(x)
 			}
@@ -576,7 +608,7 @@ func (x *Exec) genesis(f []string) {
 	x.NAccts = n
 	var bals []GenBalance
 	for i := 0; i < n; i++ {
-		bals = append(bals, GenBalance{mkAcct(i).Addr, sdk.NewCoins(sdk.NewCoin(feeDenom, bal))})
+		bals = append(bals, GenBalance{mkAcct(i).Addr, sdk.NewCoins(sdk.NewCoin(feeDenom, bal), sdk.NewCoin("ubtc", sdk.NewInt(1000000)))})
 	}
 	custom := map[string]json.RawMessage{}
 	for k, v := range x.Custom {
@@ -586,6 +618,37 @@ func (x *Exec) genesis(f []string) {
 		custom["aol"] = app.MakeEncodingConfig().Codec.MustMarshalJSON(x.genAol)
 	}
 	x.C = NewChain(n, bals, custom, time.Unix(1700000000, 0).UTC())
+	// accounts that exist after InitChain (a vesting account can only be created at an address without account)
+	x.C.App.AccountKeeper.IterateAccounts(x.C.Ctx(), func(acc authtypes.AccountI) bool {
+		x.Out.Decl("ENV account %s", tok(acc.GetAddress()))
+		return false
+	})
+}
+
+var watchDenoms = []string{feeDenom, "ubtc"}
+
+func (x *Exec) watchAddrs() []sdk.AccAddress {
+	var l []sdk.AccAddress
+	for i := 0; i < x.NAccts; i++ {
+		l = append(l, mkAcct(i).Addr)
+	}
+	burnAddr, _ := sdk.AccAddressFromBech32(burntypes.BurnAddress)
+	return append(l, burnAddr, authtypes.NewModuleAddress(authtypes.FeeCollectorName))
+}
+
+// watchBalances: balances of the watched addresses in the watched denominations, then the supplies (deliver state)
+func (x *Exec) watchBalances() []sdk.Int {
+	ctx := x.C.Ctx()
+	var out []sdk.Int
+	for _, a := range x.watchAddrs() {
+		for _, d := range watchDenoms {
+			out = append(out, x.C.App.BankKeeper.GetBalance(ctx, a, d).Amount)
+		}
+	}
+	for _, d := range watchDenoms {
+		out = append(out, x.C.App.BankKeeper.GetSupply(ctx, d).Amount)
+	}
+	return out
 }
 
 func (x *Exec) declGenesis(f []string) {
@@ -607,6 +670,14 @@ func (x *Exec) declGenesis(f []string) {
 	}
 	for i := 0; i < n; i++ {
 		x.Out.Decl("BAL %s %s %s", tok(mkAcct(i).Addr), toks(feeDenom), bal.String())
+		x.Out.Decl("BAL %s %s %s", tok(mkAcct(i).Addr), toks("ubtc"), "1000000")
+	}
+	x.NAccts = n
+	for _, a := range x.watchAddrs() {
+		x.Out.Decl("ENV watch %s", tok(a))
+	}
+	for _, d := range watchDenoms {
+		x.Out.Decl("ENV denom %s", toks(d))
 	}
 }
 
